@@ -98,8 +98,17 @@ func genScenario(prop string, rng *rand.Rand) *Scenario {
 			closers = 0
 		}
 	}
-	if (prop == "C01" || prop == "C02" || prop == "C06") && !sc.Sync && sc.FailAt == 0 && rng.Intn(4) == 0 {
-		sc.Buffered = []int{4, 16, 4096}[rng.Intn(3)]
+	if (prop == "C01" || prop == "C02" || prop == "C06") && sc.FailAt == 0 && rng.Intn(4) == 0 {
+		if sc.Sync {
+			sc.Buffered = -1 // the unbuffered wrapper: a vectored write is one connection write per buffer
+		} else {
+			sc.Buffered = []int{4, 16, 4096}[rng.Intn(3)]
+		}
+	}
+	// 1/12 of the queued scenarios carry payloads of 33000 bytes: two of them exceed every 64 KiB threshold
+	sc.Big = (prop == "C01" || prop == "C02" || prop == "C06" || prop == "C10") && !sc.Sync && rng.Intn(12) == 0
+	if prop == "C10" && rng.Intn(3) == 0 {
+		cancellers = 1 // a caller context cancelled while its write is in progress
 	}
 	sc.NCtx = cancellers
 	nw := 1 + rng.Intn(3)
@@ -108,6 +117,17 @@ func genScenario(prop string, rng *rand.Rand) *Scenario {
 		nops := 1 + rng.Intn(3)
 		for i := 0; i < nops; i++ {
 			op := genWriteOp(rng, sc.NCtx, prop != "C01" || rng.Intn(3) == 0)
+			if sc.Big && len(op.Bufs) > 0 && rng.Intn(2) == 0 {
+				for j := range op.Bufs {
+					op.Bufs[j] = payload(rng, 33000)
+				}
+			}
+			if prop == "C10" && sc.NCtx > 0 && (op.Kind == "cw1" || op.Kind == "cwv") && rng.Intn(3) != 0 {
+				op.Ctx = "k0" // the context the canceller goroutine cancels while the write is under way
+			}
+			if prop == "C10" && sc.NCtx > 0 && op.Kind == "w1" && rng.Intn(3) == 0 {
+				op.Kind, op.Ctx = "cw1", "k0"
+			}
 			if prop == "C10" {
 				op.Over = true
 				if rng.Intn(12) == 0 && len(op.Bufs) == 1 { // beyond the largest pool class
@@ -148,6 +168,9 @@ func runProp(prop string, seed int64, count, scheds, dfsBound, dfsCap int) {
 	rng := rand.New(rand.NewSource(seed))
 	for i := 0; i < count && rt.StuckTotal < 3; i++ {
 		sc := genScenario(prop, rng)
+		for dfsBound > 0 && sc.Big {
+			sc = genScenario(prop, rng)
+		}
 		if dfsBound > 0 {
 			n := 0
 			exploreDFS(sc, dfsBound, dfsCap, func(c *rt.Controller) {
@@ -158,6 +181,9 @@ func runProp(prop string, seed int64, count, scheds, dfsBound, dfsCap int) {
 			continue
 		}
 		for s := 0; s < scheds && rt.StuckTotal < 3; s++ {
+			if sc.Big && s >= 4 {
+				break // large payloads make long lines: a few schedules are enough
+			}
 			st := &rt.Random{State: uint64(seed)*1000003 + uint64(i)*7919 + uint64(s)*104729 + 1, Stickiness: []int{0, 50, 80, 95}[s%4]}
 			c := runScenario(sc, st)
 			emit("#case %s-%d-r%d", prop, i, s)
